@@ -303,6 +303,6 @@ def run_order(ctx, case):
 
 SUBCHECKS = [
     SubCheck('boundaries', run_boundary, strategy=_strat_bd, examples=(1200, 8000), shards=(3, 16), floors={'batch=3': 0.15, 'dm_norm given': 0.3}),
-    SubCheck('inner_models', run_inner, strategy=_strat_inner, examples=(14, 120), shards=(6, 16), shrink=False),
-    SubCheck('ordering', run_order, strategy=_strat_order, examples=(6, 60), shards=(6, 16), shrink=False),
+    SubCheck('inner_models', run_inner, strategy=_strat_inner, examples=(14, 60), shards=(6, 16), shrink=False),
+    SubCheck('ordering', run_order, strategy=_strat_order, examples=(6, 24), shards=(6, 16), shrink=False),
 ]
